@@ -301,6 +301,49 @@ def b_cycles_column(ctx):
     ctx.sample({'from': [0.0, 3.0], 'to': [1.0, -2.0], 'cycles': [2.5, 10.0]})
 
 
+@bounded('C14', 'histogram-scale-shift', shards=1)
+def b_hist_scale(ctx):
+    """LoadHistogram.scale / shift (range/mean and from/to matrices): when a result is handed back, amplitude = |f| x amplitude (>= 0), mean = f x mean (shift: mean + d),
+    upper >= lower, cycle counts untouched, and it agrees with LoadCollective.scale / shift on the class mids - for positive, NEGATIVE and per-node mixed-sign
+    operands; an operand the histogram refuses (ValueError) is counted, not failed (added after seed C14-f swapped the class limits for negative factors, which is
+    right for from / to / mean levels and wrong for the range level)"""
+    import itertools
+    import warnings
+    import numpy as np
+    import pandas as pd
+    import pylife.stress.collective   # noqa
+    warnings.simplefilter('ignore')
+    ctx.bound = "3x3 range/mean and from/to matrices with counts 1..9; scale factors 0.5, 2, -1, -0.5; shifts 1.5, -2; per-node factors [2, -0.5]"
+    ctx.rule = "every (layout, operation, operand) is one case; non-trivial: negative or per-node operand"
+    rg = pd.IntervalIndex.from_breaks([0.0, 2.0, 4.0, 6.0], name='range')
+    mn = pd.IntervalIndex.from_breaks([-3.0, -1.0, 1.0, 3.0], name='mean')
+    fr = pd.IntervalIndex.from_breaks([-3.0, -1.0, 1.0, 3.0], name='from')
+    to = pd.IntervalIndex.from_breaks([-2.0, 0.0, 2.0, 4.0], name='to')
+    mats = {'range/mean': pd.Series(np.arange(1.0, 10.0), index=pd.MultiIndex.from_product([rg, mn]), name='cycles'),
+            'from/to': pd.Series(np.arange(1.0, 10.0), index=pd.MultiIndex.from_product([fr, to]), name='cycles')}
+    for (lname, mat), (op, operand) in itertools.product(mats.items(), [('scale', 0.5), ('scale', 2.0), ('scale', -1.0), ('scale', -0.5), ('shift', 1.5), ('shift', -2.0)]):
+        ctx.case(operand < 0, key=(lname, op, operand))
+        h = mat.load_collective
+        a0, m0 = np.asarray(h.amplitude, dtype=float), np.asarray(h.meanstress, dtype=float)
+        try:
+            res = getattr(h, op)(operand)
+        except ValueError:
+            ctx.count(f'refused:{lname}:{op}:{operand}')
+            continue
+        a1, m1 = np.asarray(res.amplitude, dtype=float), np.asarray(res.meanstress, dtype=float)
+        up, lo = np.asarray(res.upper, dtype=float), np.asarray(res.lower, dtype=float)
+        want_a = np.abs(operand) * a0 if op == 'scale' else a0
+        want_m = operand * m0 if op == 'scale' else m0 + operand
+        cyc_same = np.array_equal(np.asarray(res.to_pandas(), dtype=float), np.asarray(mat, dtype=float))
+        # the class mids are identified by value, not by position: compare as multisets of (amplitude, mean, count)
+        got_rows = sorted(zip(np.round(a1, 9), np.round(m1, 9), np.asarray(res.to_pandas(), dtype=float)))
+        want_rows = sorted(zip(np.round(want_a, 9), np.round(want_m, 9), np.asarray(mat, dtype=float)))
+        if (a1 < 0).any() or (up < lo - 1e-12).any() or got_rows != want_rows:
+            ctx.fail(f'C14:histogram-{op}:{lname}', f'{lname} matrix {op}({operand}): amplitudes {a1.tolist()} (expected {want_a.tolist()}), means {m1.tolist()} (expected {want_m.tolist()}), upper >= lower: {bool((up >= lo - 1e-12).all())}, counts kept: {cyc_same}',
+                     {'layout': lname, 'operation': op, 'operand': operand})
+    ctx.sample({'layout': 'range/mean', 'operation': 'scale', 'operand': -1.0})
+
+
 @bounded('C14', 'rebin-combine-conservation', shards=8)
 def b_rebin(ctx):
     """rebin_histogram to any gap-free binning covering the histogram conserves the total, is the identity for the same binning and composes;
